@@ -8,6 +8,7 @@ structure State where
   set : Set := {}
   setBad : Nat := 0
   acl : Set := {}
+  dacl : Set := {}
   views : List Set := []
   vtypes : List (List Nat) := []
 
@@ -83,6 +84,17 @@ def step (st : State) (w : List String) : State × String :=
       | some k => (st, s!"view={k}")
       | none => (st, "view=none")
     | _, _, _ => (st, "bad-op")
+  | ["dchain", "new", es, _rl] =>
+    match parseEntries es with
+    | some l => ({ st with dacl := Set.new (if l.isEmpty then openList else l) }, "ok")
+    | none => (st, "bad-op")
+  | ["dchain", "serve", a, _proto, _ver, _opc, _ck] =>
+    -- default chain prefix, rate limiter off: whatever the query carries, a
+    -- reply exists iff the access list lets the source through
+    match parseAddr a with
+    | some (f, v) => (st, s!"reply={boolStr (aclNext st.dacl false f v)}")
+    | none => (st, "bad-op")
+  | "dchain" :: "rlserve" :: _ => (st, "unmodelled")
   | "sub" :: _ => (st, "unmodelled")
   | _ => (st, "bad-op")
 
